@@ -107,3 +107,15 @@ PROPS["C02"] = dict(explanation=WAL_EXPL + "Oracle C02: no row that was not issu
 PROPS["C03"] = dict(explanation=WAL_EXPL + "Oracle C03: CleanupOldWALFiles returns nil (internal/di panics otherwise), nothing panics, and the bucket can be queried without error.",
     runs=[dict(pkg="executor", files=["c08_fixed.go", "c09_variable.go", "c11_range.go", "c01_walsim.go"], entries=["VerifC03Crash"], must_reach=["entered", "crashed", "restarted"], opts=dict(timeout=60))],
     bounds=WAL_BOUNDS, outside=WAL_OUT + ["with snappy compression enabled a crash inside a continuation write leaves a truncated compressed block that the reader reports as corrupt (seen natively while writing DESIGN.md); the codec is outside this check"], stubs=FS_STUBS + TICK_STUBS, assumptions=COMMON_ASSUME)
+
+
+SYNC_EXPL = "Bounded symbolic execution of the real WAL writer loop (WALFileType.SyncWAL: select over the flush timer, queued flush requests, the queue-pressure check and the checkpoint timer with WAL truncation every checkpoint; shutdown branch) over the engine's file-system model. Timer channels deliver a bounded number of events in every order the select allows (each select with several ready cases forks); the harness plays the client goroutines when the loop goes idle (queues a write, requests shutdown). "
+SYNC_STUBS = FS_STUBS + TICK_STUBS + ["time.NewTicker: channels that fire a bounded number of times, at any select", "client goroutines: played by an idle hook (queue write C, then request shutdown), their wait for the flush reply is not modelled"]
+PROPS["C35"] = dict(explanation=SYNC_EXPL + "C35: after the loop's shutdown branch has run, a new process starts (WAL clean-up/replay) and is queried: every write handed to the server is present exactly once (fixed: last value per interval; variable: every record once).",
+    runs=[dict(pkg="executor", files=["c08_fixed.go", "c09_variable.go", "c11_range.go", "c01_walsim.go", "c35_syncwal.go"], entries=["VerifC35Shutdown"], must_reach=["entered", "shutdown-complete", "queried"], opts=dict(timeout=60))],
+    bounds=["one bucket (fixed 1D or variable 1D), writes A (before the loop), B (queued when the loop starts), C (queued when the loop is idle)", "0..1 timer events before the loop goes idle (thorough 0..3), every select order", "shutdown requested after C was flushed, or while C is still queued", "quick: A and C in the same interval, B in either; thorough: all placements over 2 intervals"],
+    outside=["writers racing with the shutdown at a finer grain than loop iterations", "trigger dispatch (finishAndWait)"], stubs=SYNC_STUBS, assumptions=COMMON_ASSUME)
+PROPS["C05"] = dict(explanation=SYNC_EXPL + "C05: the process running the loop is killed before any one of its file-mutating calls; a new process replays; every transaction whose flush had completed when the loop was last idle is recovered (fixed: last flushed value per interval or a later in-flight one), nothing is duplicated, nothing unissued appears. Checkpoint and rotation (Truncate(0) + status rewrite) events are part of the schedules.",
+    runs=[dict(pkg="executor", files=["c08_fixed.go", "c09_variable.go", "c11_range.go", "c01_walsim.go", "c35_syncwal.go"], entries=["VerifC05Events"], must_reach=["entered", "crashed", "queried"], opts=dict(timeout=60))],
+    bounds=["quick: fixed-length bucket, all three writes in one interval, exactly 1 timer event before idle; thorough: fixed and variable, all placements, 0..3 timer events, shutdown with pending write", "crash before every file-mutating call of the loop process, plus no crash"],
+    outside=["the recorded-trace formulation of the property: the implementation itself is executed instead of a model", "goroutine schedules finer than loop iterations", "replay order of several un-checkpointed transactions is exercised by C01 (two transactions without checkpoint)"], stubs=SYNC_STUBS, assumptions=COMMON_ASSUME)
